@@ -731,7 +731,13 @@ impl Stringify for Value {
                                     .chars()
                                     .all(|c| matches!(c, ' ' | '\x09'..='\x0D')) =>
                         {
-                            stringifier.write_token(&escape_html_body(value), None, location)?;
+                            // (a final `{` would join the `{{` of the binding that follows)
+                            let mut quoted = escape_html_body(value).into_owned();
+                            if quoted.ends_with('{') {
+                                quoted.pop();
+                                quoted.push_str("&#123;");
+                            }
+                            stringifier.write_token(&quoted, None, location)?;
                             return Ok(());
                         }
                         Expression::ToStringWithoutUndefined { value, location } => {
